@@ -104,6 +104,9 @@ def families(tier):
     out.append(('ws-only-value', F0, 'headers', lambda k: (b'N:' + b' \t' * (2 * k), 2, b'\r\n\r\n')))
     out.append(('folded-trailing-ws', flags(obs_fold=True), 'resp', lambda k: (RESP_LINE + b'X: a\r\n' + b' b  \r\n' * k, 2, b'\r\n')))
     out.append(('chunk-ws', F0, 'chunk', lambda k: (b'1f' + b' \t' * (2 * k), 2, b'\r\n')))
+    # work that depends on what lies BEHIND the head (body bytes in the same buffer): many header lines followed by a long blank body
+    out.append(('blank-body', F0, 'headers', lambda k: (b'a:b\n' * k, 2, b'\n' + b' \t\r\n' * k), lambda k: k + 2))
+    out.append(('blank-body-req', F0, 'req', lambda k: (REQ_LINE + b'a: b\r\n' * k, 2, b'\r\n' + b' ' * (4 * k)), lambda k: k + 2))
     out.append(('header-count', F0, 'headers', lambda k: (b'a:b\n' * k, 2, b'\n'), lambda k: k + 2))
     return out
 
@@ -145,7 +148,10 @@ def main(pid, tier, seed):
             table[fam] = row
             for a, b in zip(ks, ks[1:]):
                 if b != 2 * a: continue
-                for m, C in (('reads', 96), ('steps', 4000)):
+                # below two AVX2 vector widths the amount of look-ahead a scanner can do is limited by the buffer end, so the smaller
+                # input is cheaper per byte than any longer one (a boundary effect, not growth): such a pair is tabulated, not judged
+                if row[a]['len'] < 64: continue
+                for m, C in (('reads', 256), ('steps', 4000)):
                     wa, wb = row[a][m], row[b][m]
                     la, lb = row[a]['len'], row[b]['len']
                     # inputs do not exactly double in length (fixed head/tail): scale by the length ratio
